@@ -1,4 +1,4 @@
-(* SE2Proofs.v — theorems about the SO2 and SE2 models at the real instance (C01 part). *)
+(* SE2Proofs.v — C01 for the SO2 and SE2 models at the real instance. *)
 From Coq Require Import Reals ZArith List Lra.
 From Manif Require Import Scalar Mat Consts Group RInst Tac Atan2 SO2 SE2 Generic LieSpec.
 Import ListNotations.
@@ -11,8 +11,7 @@ Hypothesis eps_pos : 0 < eps.
 Lemma renorm2_unit re im : re * re + im * im = 1 -> renorm2 RS eps re im = (re, im).
 Proof.
   intros H. unfold renorm2. mat_unfold. rewrite H.
-  replace (1 - 1) with 0 by ring.
-  rewrite (Rltb_lt_false 0 0) by lra. rewrite (Rltb_lt_false eps 0) by lra. reflexivity.
+  rewrite (renorm_test_unit eps eps_pos). reflexivity.
 Qed.
 
 Lemma unit_mul ar ai br bi : ar * ar + ai * ai = 1 -> br * br + bi * bi = 1 ->
@@ -45,20 +44,16 @@ Qed.
 Lemma so2_identity_eq : g_identity (SO2 RS eps) = [1; 0].
 Proof. unfold g_identity. cbn. unfold so2_exp, so2t_angle. mat_unfold. rewrite cos_0, sin_0. reflexivity. Qed.
 
-Definition SO2_laws : GroupLaws (SO2 RS eps).
+Definition SO2_core : GroupCore (SO2 RS eps).
 Proof.
-  refine (mkLaws _ so2_valid hom2 _ _ _ _ _ _ _ _ _ _ _ _ _); cbn [g_compose g_inverse g_transform g_act g_tra g_actdim SO2].
+  refine (mkCore _ so2_valid hom2 _ _ _ _ _ _ _ _ _ _ _); cbn [g_compose g_inverse g_transform g_act g_tra g_actdim SO2].
   - intros X Y (ar & ai & -> & Ha) (br & bi & -> & Hb). rewrite so2_compose_valid_eq by assumption.
     eexists _, _; split; [reflexivity|]. apply unit_mul; assumption.
   - intros X (r & i & -> & H). unfold so2_inverse, so2_real, so2_imag; mat_unfold.
-    eexists _, _; split; [reflexivity|]. nra.
+    eexists _, _; split; [reflexivity|]. rewrite <- H; ring.
   - rewrite so2_identity_eq. exists 1, 0; split; [reflexivity|ring].
   - intros X Y (ar & ai & -> & Ha) (br & bi & -> & Hb). rewrite so2_compose_valid_eq by assumption.
     rewrite !so2_transform_valid by (try apply unit_mul; assumption). mat_unfold. list_eq; ring.
-  - intros X (r & i & -> & H). unfold so2_inverse, so2_real, so2_imag; mat_unfold.
-    rewrite !so2_transform_valid by nra. mat_unfold. list_eq; try ring; nra.
-  - intros X (r & i & -> & H). unfold so2_inverse, so2_real, so2_imag; mat_unfold.
-    rewrite !so2_transform_valid by nra. mat_unfold. list_eq; try ring; nra.
   - rewrite so2_identity_eq, so2_transform_valid by ring. mat_unfold. list_eq; ring.
   - intros X p (r & i & -> & H) Hp.
     destruct p as [|px [|py [|? ?]]]; try discriminate Hp.
@@ -69,10 +64,10 @@ Proof.
     rewrite !so2_compose_valid_eq by (try apply unit_mul; assumption). list_eq; ring.
   - intros X (r & i & -> & H). rewrite so2_identity_eq, so2_compose_valid_eq by (try assumption; ring). list_eq; ring.
   - intros X (r & i & -> & H). rewrite so2_identity_eq, so2_compose_valid_eq by (try assumption; ring). list_eq; ring.
-  - intros X (r & i & -> & H). unfold so2_inverse, so2_real, so2_imag; mat_unfold.
-    rewrite so2_compose_valid_eq by nra. rewrite so2_transform_valid by nra. mat_unfold. list_eq; try ring; nra.
-  - intros X (r & i & -> & H). unfold so2_inverse, so2_real, so2_imag; mat_unfold.
-    rewrite so2_compose_valid_eq by nra. rewrite so2_transform_valid by nra. mat_unfold. list_eq; try ring; nra.
+  - intros X (r & i & -> & H). rewrite so2_identity_eq. unfold so2_inverse, so2_real, so2_imag; mat_unfold.
+    rewrite so2_compose_valid_eq by (try assumption; rewrite <- H; ring). list_eq; ring1 H.
+  - intros X (r & i & -> & H). rewrite so2_identity_eq. unfold so2_inverse, so2_real, so2_imag; mat_unfold.
+    rewrite so2_compose_valid_eq by (try assumption; rewrite <- H; ring). list_eq; ring1 H.
 Defined.
 
 (* ------------------------------ SE2 ------------------------------ *)
@@ -100,22 +95,18 @@ Proof.
   replace (0 * 0) with 0 by ring. rewrite (Rltb_lt_true 0 eps) by lra. list_eq; ring.
 Qed.
 
-Definition SE2_laws : GroupLaws (SE2 RS eps).
+Definition SE2_core : GroupCore (SE2 RS eps).
 Proof.
-  refine (mkLaws _ se2_valid hom2 _ _ _ _ _ _ _ _ _ _ _ _ _); cbn [g_compose g_inverse g_transform g_act g_tra g_actdim SE2].
+  refine (mkCore _ se2_valid hom2 _ _ _ _ _ _ _ _ _ _ _); cbn [g_compose g_inverse g_transform g_act g_tra g_actdim SE2].
   - intros X Y (ax & ay & ar & ai & -> & Ha) (bx & by_ & br & bi & -> & Hb).
     rewrite se2_compose_valid_eq by assumption.
     eexists _, _, _, _; split; [reflexivity|]. apply unit_mul; assumption.
   - intros X (x & y & r & i & -> & H). rewrite se2_inverse_valid_eq by assumption.
-    eexists _, _, _, _; split; [reflexivity|]. nra.
+    eexists _, _, _, _; split; [reflexivity|]. rewrite <- H; ring.
   - rewrite se2_identity_eq. exists 0, 0, 1, 0; split; [reflexivity|ring].
   - intros X Y (ax & ay & ar & ai & -> & Ha) (bx & by_ & br & bi & -> & Hb).
     rewrite se2_compose_valid_eq by assumption.
     unfold se2_transform, se2_real, se2_imag, se2_x, se2_y. mat_unfold. list_eq; ring.
-  - intros X (x & y & r & i & -> & H). rewrite se2_inverse_valid_eq by assumption.
-    unfold se2_transform, se2_real, se2_imag, se2_x, se2_y. mat_unfold. list_eq; try ring; nra.
-  - intros X (x & y & r & i & -> & H). rewrite se2_inverse_valid_eq by assumption.
-    unfold se2_transform, se2_real, se2_imag, se2_x, se2_y. mat_unfold. list_eq; try ring; nra.
   - rewrite se2_identity_eq. unfold se2_transform, se2_real, se2_imag, se2_x, se2_y. mat_unfold. list_eq; ring.
   - intros X p (x & y & r & i & -> & H) Hp.
     destruct p as [|px [|py [|? ?]]]; try discriminate Hp.
@@ -126,11 +117,9 @@ Proof.
     rewrite !se2_compose_valid_eq by (try apply unit_mul; assumption). list_eq; ring.
   - intros X (x & y & r & i & -> & H). rewrite se2_identity_eq, se2_compose_valid_eq by (try assumption; ring). list_eq; ring.
   - intros X (x & y & r & i & -> & H). rewrite se2_identity_eq, se2_compose_valid_eq by (try assumption; ring). list_eq; ring.
-  - intros X (x & y & r & i & -> & H). rewrite se2_inverse_valid_eq by assumption.
-    rewrite se2_compose_valid_eq by nra.
-    unfold se2_transform, se2_real, se2_imag, se2_x, se2_y. mat_unfold. list_eq; try ring; nra.
-  - intros X (x & y & r & i & -> & H). rewrite se2_inverse_valid_eq by assumption.
-    rewrite se2_compose_valid_eq by nra.
-    unfold se2_transform, se2_real, se2_imag, se2_x, se2_y. mat_unfold. list_eq; try ring; nra.
+  - intros X (x & y & r & i & -> & H). rewrite se2_identity_eq, se2_inverse_valid_eq by assumption.
+    rewrite se2_compose_valid_eq by (try assumption; rewrite <- H; ring). list_eq; ring1 H.
+  - intros X (x & y & r & i & -> & H). rewrite se2_identity_eq, se2_inverse_valid_eq by assumption.
+    rewrite se2_compose_valid_eq by (try assumption; rewrite <- H; ring). list_eq; ring1 H.
 Defined.
 End P.
